@@ -192,7 +192,13 @@ def make_protocol(steps: list[tuple[float, dict[str, float]]]) -> pd.DataFrame:
     data = {}
     t0 = pd.Timedelta(0)
     for step, pars in steps:
-        t0 += pd.Timedelta(seconds=step)
+        t_end = t0 + pd.Timedelta(seconds=step)
+        if t_end <= t0:
+            # The steps are keyed by their end: a step that does not advance the time
+            # (also one shorter than a nanosecond) would replace the step before it
+            msg = f"Protocol step durations need to be positive, got {step}"
+            raise ValueError(msg)
+        t0 = t_end
         data[t0] = pars
     protocol = pd.DataFrame(data).T
     protocol.index.name = "Timedelta"
